@@ -342,7 +342,7 @@ def replay_antecedent(fl, FA, vals=None, depth=3, seed=0, budget=600, **kw):
         tree = _gen_tree(rng, rng.randrange(0, depth + 1), len(vars_))
         style = rng.choice(["min", "full", "mixed"]); sp = rng.choice([" ", ""])
         text = _print_tree(tree, style, names, sp=sp)
-        w = rng.choice([1.0, 0.5, 0.25, 2.0])
+        w = rng.choice([1.0, 0.5, 0.25, 2.0, 0.0])
         cj, dj = rng.choice(pairs)
         e = fl.Engine(name="w", input_variables=ins, output_variables=outs, rule_blocks=[])
         for v in ins:
@@ -360,6 +360,18 @@ def replay_antecedent(fl, FA, vals=None, depth=3, seed=0, budget=600, **kw):
         exp = np.float64(w) * _eval_tree(fl, tree, vars_, cj, dj)
         cases += 1
         seen.add(text)
+        # "a loaded rule": loading leaves the rule's own text as written, and loading the unedited rule again (reload_rules, Engine.restart, a second
+        # load_rules) gives the same reading
+        kept = " ".join(r.antecedent.text.replace("(", " ( ").replace(")", " ) ").split()) == " ".join(text.replace("(", " ( ").replace(")", " ) ").split())
+        try:
+            r.load(e)
+            again = np.float64(r.activate_with(cj, dj))
+        except Exception as ex:  # noqa
+            return {"failed": True, "expected": "rule loads a second time", "observed": f"{type(ex).__name__}: {ex}", "call": rule_text, "cases": cases}
+        if not kept or not FA.same(again, exp, rel=1e-12, abs_=1e-12):
+            return {"failed": True, "expected": {"antecedent text": text, "value": None if exp != exp else float(exp)},
+                    "observed": {"antecedent text after load": r.antecedent.text, "value after a second load": None if again != again else float(again)}, "cases": cases,
+                    "call": f"Rule('{rule_text}') loaded, then loaded again unedited; activate_with({type(cj).__name__}, {type(dj).__name__})"}
         if not (FA.same(got, exp, rel=1e-12, abs_=1e-12) and FA.same(np.float64(r.activation_degree), exp, rel=1e-12, abs_=1e-12)):
             return {"failed": True, "expected": None if exp != exp else float(exp), "observed": None if got != got else float(got), "cases": cases,
                     "call": f"Rule('{rule_text}').activate_with({type(cj).__name__}, {type(dj).__name__}) inputs={[(v.name, None if v.value != v.value else float(v.value), v.enabled) for v in ins]} "
